@@ -346,8 +346,8 @@ def dedupRaws : Nat → List Raw := fun _ =>
   [{ msg := { id := "nullPointer".toList, severity := .error, short := ['p'], stack := [{ file := ['a'], origFile := ['a'], line := 2, col := 1 }] } },
    { msg := { id := "nullPointer".toList, severity := .error, short := ['q'], stack := [{ file := ['a'], origFile := ['a'], line := 4, col := 1 }] } }]
 
-/-- F11d (current lib/cppcheck.cpp, `dedupFix = false`): outside `dedupOK` the single executor model reports the second
-    finding (result 1), the thread executor model reports nothing (result 0). -/
+/-- F11d (lib/cppcheck.cpp between 9e24c55 and 9907ad7, `dedupFix = false`; fixed since): outside `dedupOK` the single
+    executor model reports the second finding (result 1), the thread executor model reports nothing (result 0). -/
 theorem thread_dedup_counterexample :
     ∃ (σ : List TLabel) (s' : TState Nat),
       trun (dedupCfg false) dedupRaws (tinit [0] 1) σ = some s' ∧ s'.terminal = true ∧
@@ -359,8 +359,8 @@ theorem thread_dedup_counterexample :
   | some s' =>
     refine ⟨_, s', h, ?_, ?_, ?_, by decide, by decide⟩ <;> (revert h; decide +revert)
 
-/-- … and with /verif/proposed/C15-suppressed-dedup-jobs.diff (`dedupFix = true`) the same input satisfies `dedupOK`,
-    so `thread_eq_single` applies to it -/
+/-- … and for the current code (`dedupFix = true`, /repo 9907ad7) the same input satisfies `dedupOK`, so
+    `thread_eq_single` applies to it -/
 example : dedupOK (dedupCfg true) (dedupRaws 0) = true ∧ dedupOK (dedupCfg false) (dedupRaws 0) = false := by decide
 
 end Cppcheck.Exec
